@@ -58,12 +58,30 @@ pub fn case(x: &Xfer) -> CaseOut {
                 mtu_up = true;
                 // path_changed() restarts MTU discovery from the configured initial MTU
                 let side_ops = if c.side.is_client() { &x.client.ops } else { &x.server.ops };
-                let restarted = b.mtu == tc.initial_mtu.min(peer_ep.max_udp_payload.clamp(1200, 65527)) && side_ops.iter().any(|o| o.op == AuxOp::PathChanged);
+                // (so does a migration; a server may leave a path and return to it between two transmits,
+                // which the per-transmit samples of the remote address do not show)
+                let restarted = b.mtu == tc.initial_mtu.min(peer_ep.max_udp_payload.clamp(1200, 65527)) && (side_ops.iter().any(|o| o.op == AuxOp::PathChanged) || (x.net.client_move_at_us.is_some() && c.side.is_server()));
                 let ok = restarted || sent_sizes.get(conn).is_some_and(|v| v.contains(&(b.mtu as usize)));
                 if !ok {
+                    let hist: Vec<String> = w
+                        .trace
+                        .iter()
+                        .filter_map(|r| match r {
+                            Rec::Tx { t, conn: c2, before: Some(b), after: Some(a), .. } if c2 == conn => Some((*t, b.remote, b.mtu, a.remote, a.mtu)),
+                            _ => None,
+                        })
+                        .fold(Vec::<(u64, Option<std::net::SocketAddr>, u16, Option<std::net::SocketAddr>, u16)>::new(), |mut v, x| {
+                            if v.last().map_or(true, |l| (l.3, l.4) != (x.1, x.2) || (x.1, x.2) != (x.3, x.4)) {
+                                v.push(x);
+                            }
+                            v
+                        })
+                        .iter()
+                        .map(|(t, r1, m1, r2, m2)| format!("t={t} {r1:?}/{m1} -> {r2:?}/{m2}"))
+                        .collect();
                     return CaseOut::fail(
                         "c13/mtu-raised-without-probe",
-                        format!("t={t} conn {conn}: MTU estimate rose from {prev} to {} but no datagram of exactly that size was sent and delivered before", b.mtu),
+                        format!("t={t} conn {conn}: MTU estimate rose from {prev} to {} but no datagram of exactly that size was sent and delivered before; path/MTU history of this connection: {hist:?}", b.mtu),
                     );
                 }
             }
